@@ -34,6 +34,8 @@ type Scenario struct {
 	Heavy bool
 	// FreeCost 1 = delay bounding (every non-default scheduling choice costs).
 	FreeCost int
+	// AutoDelay: see sched.Scenario.AutoDelay (set for the quick tier).
+	AutoDelay int64
 }
 
 // AdminOp is a schema change executed by the admin thread while clients run.
